@@ -11,6 +11,31 @@ import vpenv
 import kani as kani_mod
 
 
+def _prune(tdir, older_than_s=1800):
+    """remove per-run artefacts (ipp / bounded built from scratch paths, incremental data) not touched for a while"""
+    now = time.time()
+    try:
+        shutil.rmtree(os.path.join(tdir, 'debug', 'incremental'), ignore_errors=True)
+        for sub in ('deps', '.fingerprint', 'build'):
+            d = os.path.join(tdir, 'debug', sub)
+            if not os.path.isdir(d):
+                continue
+            for fn in os.listdir(d):
+                if not (fn.startswith(('ipp-', 'libipp-', 'bounded-', 'libbounded-', 'ipp_bounded', 'libipp_bounded'))):
+                    continue
+                fp = os.path.join(d, fn)
+                try:
+                    if now - os.path.getmtime(fp) > older_than_s:
+                        if os.path.isdir(fp):
+                            shutil.rmtree(fp, ignore_errors=True)
+                        else:
+                            os.remove(fp)
+                except OSError:
+                    pass
+    except OSError:
+        pass
+
+
 def run(scratch, checks, tier='quick', timeout=1800):
     """-> dict(ok, build_error, results: {check: {cases, distinct, failure, samples}}, wall_s, cmd)"""
     kani_mod.setup(scratch)     # provides scratch/plain
@@ -22,7 +47,11 @@ def run(scratch, checks, tier='quick', timeout=1800):
         open(os.path.join(h, 'Cargo.toml'), 'w').write(t)
         shutil.copy2(os.path.join(vpenv.REPO, 'Cargo.lock'), os.path.join(h, 'Cargo.lock'))
     t0 = time.time()
-    env = vpenv.offline_env({'CARGO_TARGET_DIR': os.path.join(vpenv.CACHE, 'bounded-target')})
+    # shared target dir (the dependencies are built once); no incremental data, and the artefacts of the scratch copies of ipp
+    # (a new package id per run) are pruned so that the cache does not grow with every run
+    tdir = os.path.join(vpenv.CACHE, 'bounded-target')
+    env = vpenv.offline_env({'CARGO_TARGET_DIR': tdir, 'CARGO_INCREMENTAL': '0'})
+    _prune(tdir)
     b = subprocess.run(['cargo', 'build', '--offline', '-q'], cwd=h, env=env, capture_output=True, text=True, timeout=timeout)
     if b.returncode != 0:
         return {'ok': False, 'build_error': (b.stderr or b.stdout)[-1500:], 'results': {}, 'wall_s': time.time() - t0, 'cmd': 'cargo build'}
